@@ -786,3 +786,46 @@ Definition S_shared_trackable_lifetime_dupkeys : Prop :=
     (live_track t st <> None -> live_track t st' = None ->
        is_released t st = true /\ In t (map fst (shared st))) /\
     (live_track t st' <> None -> is_released t st' = true -> In t (map fst (shared st')) -> 0 < owner_count prog t st').
+
+(* ------------------------------------------------------------------------------------------ *)
+(* Shared ownership over histories (C07) and independence of the nesting bound (all properties) *)
+
+(* the table of shared trackables never holds a key twice (the hypothesis of
+   S_shared_trackable_lifetime is true of every reachable state, and of the intermediate state on
+   which the end-of-operation destruction runs) *)
+Definition S_shared_keys_distinct : Prop :=
+  forall p fuel st, reachable p fuel st -> NoDup (map fst (shared st)).
+
+Definition after_op (p : program) (fuel : nat) (o : op) (st st1 : state) : Prop :=
+  step p (run_callee_fuel p fuel) o st = Done st1 tt \/
+  exists st1', step p (run_callee_fuel p fuel) o st = Thrown st1' /\ st1 = emit_ev EExn st1'.
+
+(* S_shared_trackable_lifetime along every history, with no side condition *)
+Definition S_shared_trackable_lifetime_history : Prop :=
+  forall p fuel st o st1 st2 t, reachable p fuel st -> after_op p fuel o st st1 ->
+    gc_shared p st1 = Ok st2 ->
+    NoDup (map fst (shared st1)) /\
+    (live_track t st1 <> None -> live_track t st2 = None ->
+       is_released t st1 = true /\ In t (map fst (shared st1))) /\
+    (live_track t st2 <> None -> is_released t st2 = true -> 0 < owner_count p t st2).
+
+(* between operations no object survives without an owner: a shared trackable whose program handle
+   has been released is alive only while some live functor copy owns it *)
+Definition S_no_orphan_at_rest : Prop :=
+  forall p fuel st t, reachable p fuel st ->
+    live_track t st <> None -> is_released t st = true -> 0 < owner_count p t st.
+
+(* The nesting bound of the interpreter is not part of the meaning: a run that does not hit the
+   bound gives the same state and trace under every larger bound (so `reachable p fuel` grows with
+   fuel and every theorem over `forall fuel` speaks about the unbounded semantics). *)
+Definition S_fuel_monotone_callee : Prop :=
+  forall p fuel fuel' c st r, (fuel <= fuel')%nat ->
+    run_callee_fuel p fuel c st = r -> r <> Fail ErrFuel -> run_callee_fuel p fuel' c st = r.
+
+Definition S_fuel_monotone : Prop :=
+  forall p fuel fuel' ops st, (fuel <= fuel')%nat ->
+    (forall st', run_top p fuel ops st = Ok st' -> run_top p fuel' ops st = Ok st') /\
+    (forall e, run_top p fuel ops st = Err e -> e <> ErrFuel -> run_top p fuel' ops st = Err e).
+
+Definition S_reachable_mono : Prop :=
+  forall p fuel fuel' st, (fuel <= fuel')%nat -> reachable p fuel st -> reachable p fuel' st.
